@@ -16,7 +16,14 @@ Polys == << <<<<1, 0>>, <<4, 0>>, <<2, 3>>>>,                                   
             <<<<3, -2>>, <<6, -1>>, <<7, 2>>, <<4, 4>>, <<2, 1>>>>,                \* convex pentagon
             <<<<1, 0>>, <<5, 2>>, <<1, 4>>, <<2, 2>>>>,                            \* dart (concave quadrilateral)
             <<<<0, 0>>, <<3, 0>>, <<2, 2>>, <<0, 2>>>>,                            \* trapezoid touching the axis r = 0
-            <<<<10, 5>>, <<12, 5>>, <<12, 6>>, <<11, 6>>, <<11, 8>>, <<10, 8>>>> >> \* L-shape at larger radius
+            <<<<10, 5>>, <<12, 5>>, <<12, 6>>, <<11, 6>>, <<11, 8>>, <<10, 8>>>>,  \* L-shape at larger radius
+            <<<<1, 0>>, <<5, 0>>, <<4, 2>>, <<2, 2>>>>,                            \* isosceles trapezoid, parallel sides along r (equal diagonals, not a rectangle)
+            <<<<1, 0>>, <<3, 1>>, <<3, 3>>, <<1, 4>>>>,                            \* isosceles trapezoid, parallel sides along z
+            <<<<1, 0>>, <<4, 0>>, <<5, 2>>, <<2, 2>>>>,                            \* parallelogram
+            <<<<3, 0>>, <<5, 2>>, <<3, 4>>, <<1, 2>>>>,                            \* square standing on a corner
+            <<<<2, 0>>, <<6, 0>>, <<6, 1>>, <<2, 1>>>>,                            \* flat rectangle
+            <<<<1, 0>>, <<5, 0>>, <<5, 4>>, <<4, 4>>, <<4, 1>>, <<2, 1>>, <<2, 4>>, <<1, 4>>>>,   \* U shape (8 vertices, concave)
+            <<<<2, 0>>, <<4, 0>>, <<5, 2>>, <<4, 4>>, <<2, 4>>, <<1, 2>>>> >>      \* convex hexagon
 
 VARIABLES poly, rot, rev
 vars == <<poly, rot, rev>>
@@ -34,7 +41,7 @@ Sx(P) == Sum([i \in 1..Len(P) |-> (P[i][1] + Nxt(P, i)[1]) * Cross(P, i)], Len(P
 Sy(P) == Sum([i \in 1..Len(P) |-> (P[i][2] + Nxt(P, i)[2]) * Cross(P, i)], Len(P))
 Abs(x) == IF x < 0 THEN -x ELSE x
 
-Init == poly \in 1..Len(Polys) /\ rot \in 0..5 /\ rev \in BOOLEAN /\ rot < Len(Polys[poly])
+Init == poly \in 1..Len(Polys) /\ rot \in 0..7 /\ rev \in BOOLEAN /\ rot < Len(Polys[poly])
 Next == UNCHANGED vars
 Spec == Init /\ [][Next]_vars
 
